@@ -1,4 +1,5 @@
 """C13 — compile and search are pure.  Theorems: lean/JmesVerif/Props/C13.lean."""
+import re
 import common as C
 import gen as G
 import streams as S
@@ -82,6 +83,15 @@ def gen(ctx):
                 j = rng.randrange(0, 4)
                 ops += ["c%d:%s" % (rng.randrange(0, 4), C.hexs(bad)), "c%d:%s" % (j, C.hexs(good)), "s%d:%d" % (j, rng.randrange(0, len(docs))),
                         "c%d:%s" % (j, C.hexs(good)), "s%d:%d" % (j, rng.randrange(0, len(docs)))]
+        if rng.random() < 0.25:
+            # the same compiles and searches from different depths of the CALLER's stack (about 1.2 / 2.4 / 4 MiB of ordinary frames below the call):
+            # where the caller stands is not an input of compile or search
+            for _k in range(rng.randrange(1, 4)):
+                j = rng.randrange(0, 4)
+                e = C.hexs(rng.choice(pool))
+                dd = rng.randrange(0, len(docs))
+                ops += ["c%d:%s" % (j, e), "s%d:%d" % (j, dd), "C%d:%s:%d" % (j, e, rng.choice([300, 600, 1000])), "S%d:%d:%d" % (j, dd, rng.choice([300, 600, 1000])),
+                        "c%d:%s" % (j, e), "s%d:%d" % (j, dd)]
         for _ in range(rng.randrange(5, 26) if not ops else rng.randrange(0, 6)):
             r = rng.random()
             k = rng.randrange(0, 4)
@@ -99,7 +109,10 @@ def gen(ctx):
 
 def run(ctx):
     cases = [ctx.replay["case"]] if getattr(ctx, "replay", None) else gen(ctx)
-    impl, model = S.run_both(ctx, "history", cases)
+    impl = C.run_parallel([ctx.harness, "history"], cases, idle_timeout=20.0)
+    # the model has no call stack: `C` / `S` (compile / search underneath extra caller frames) are `c` / `s` to it
+    mcases = [re.sub(r"(^|;|\t)S(\d+:\d+):\d+", r"\1s\2", re.sub(r"(^|;|\t)C(\d+:[0-9a-f]*):\d+", r"\1c\2", c)) for c in cases]
+    model = C.run_parallel([ctx.driver, "history"], mcases, idle_timeout=60.0)
     nsearch = 0
     seen_compile, seen_search = {}, {}
     for c, i, m in zip(cases, impl, model):
@@ -171,5 +184,13 @@ def run(ctx):
             if x != y:
                 ctx.violation("registryclone", line[:600], (y or "NONE")[:300], (x or "NONE")[:300],
                               "searching through a clone of a compiled expression differs from searching the expression itself")
+        # the same histories with unrelated compiles and searches on the shared default runtime interleaved (same texts, every builtin called):
+        # what a custom runtime's expression returns does not depend on what happened on another runtime before
+        nz = C.run_parallel([ctx.harness, "registrynoise"], rc)
+        for line, x, y in zip(rc, a, nz):
+            ctx.evaluations += 1
+            if x != y:
+                ctx.violation("registrynoise", line[:600], (y or "NONE")[:300], (x or "NONE")[:300],
+                              "results on a custom runtime change when unrelated searches run on the default runtime in between")
     ctx.coverage["searches"] = nsearch
     ctx.coverage["streams"] = ["history"]
